@@ -57,6 +57,10 @@ type peerSt struct {
 	Kind string `json:"kind"`
 	ID   string `json:"id"`
 	Typ  string `json:"typ"`
+	// extension attributes in a foreign name space, written BEFORE the real
+	// ones: ext:id / ext:type. They are not the stanza's id and type.
+	ExtID  string `json:"extid,omitempty"`
+	ExtTyp string `json:"exttyp,omitempty"`
 }
 
 // normalise: EncodeIQ/EncodeMessage/EncodePresence marshal a struct whose
@@ -315,6 +319,15 @@ func (h logHandler) HandleXMPP(t xmlstream.TokenReadEncoder, start *xml.StartEle
 func stanzaBytes(st peerSt, n int) []byte {
 	var sb strings.Builder
 	fmt.Fprintf(&sb, `<%s`, st.Kind)
+	if st.ExtID != "" || st.ExtTyp != "" {
+		sb.WriteString(` xmlns:ext="urn:c06:ext"`)
+		if st.ExtID != "" {
+			fmt.Fprintf(&sb, ` ext:id="%s"`, st.ExtID)
+		}
+		if st.ExtTyp != "" {
+			fmt.Fprintf(&sb, ` ext:type="%s"`, st.ExtTyp)
+		}
+	}
 	if st.Typ != "" {
 		fmt.Fprintf(&sb, ` type="%s"`, st.Typ)
 	}
